@@ -114,8 +114,6 @@ class CompleteTaskHandler(StabilizeHandler[CompleteTask]):
                         error=error,
                         source_handler="CompleteTaskHandler",
                     )
-                elif message.status == WorkflowStatus.SKIPPED:
-                    pass  # Skipped tasks don't need completion events
                 else:
                     self.event_recorder.record_task_completed(
                         task,
